@@ -279,6 +279,33 @@ theorem broadcast_order_respects_calls {v : Variant} {s : State} (hr : Reach v s
   have := log_order_respects_calls hr (hpos pa a ha) (hpos pb b hb) hret
   omega
 
+/-- Every Broadcast is logged at most once: an entry occurs at one index of the log only. -/
+theorem log_index_unique {v : Variant} {s : State} (hr : Reach v s) {k1 k2 : Nat} {a : Entry}
+    (h1 : s.log[k1]? = some a) (h2 : s.log[k2]? = some a) : k1 = k2 := by
+  have ht := tinv_reach s hr
+  have hnd : (s.log.map (·.ticket)).Nodup := (List.nodup_append.mp ht.nodup).2.1
+  have e1 : (s.log.map (·.ticket))[k1]? = some a.ticket := by simp [h1]
+  have e2 : (s.log.map (·.ticket))[k2]? = some a.ticket := by simp [h2]
+  have hk : k1 < (s.log.map (·.ticket)).length := by simp; exact lt_of_getElem? h1
+  exact (List.getElem?_inj hk hnd).mp (e1.trans e2.symm)
+
+/-- `one_common_order`: two subscribers that both received `a` and `b` received them in the same
+relative order (and at the same distance). -/
+theorem one_common_order {v : Variant} {s : State} (hr : Reach v s) {i i' : Nat} {u w : Sub}
+    (hi : s.subs[i]? = some u) (hi' : s.subs[i']? = some w) {p q p' q' : Nat} {a b : Entry}
+    (ha : u.delivered[p]? = some a) (hb : u.delivered[q]? = some b)
+    (ha' : w.delivered[p']? = some a) (hb' : w.delivered[q']? = some b) :
+    (p < q ↔ p' < q') ∧ q + p' = q' + p := by
+  have hu := (exactly_once_common_order hr hi).2.1
+  have hw := (exactly_once_common_order hr hi').2.1
+  have e1 := log_index_unique hr (hu p a ha) (hw p' a ha')
+  have e2 := log_index_unique hr (hu q b hb) (hw q' b hb')
+  constructor <;> omega
+
+example : ∃ (u w : Sub) (a : Entry), sampleState.subs[0]? = some u ∧ sampleState.subs[1]? = some w ∧
+    u.delivered[0]? = some a ∧ w.buf[0]? = some a :=
+  ⟨_, _, _, rfl, rfl, rfl, rfl⟩
+
 /-- Non-vacuity: in `sampleState` Broadcast(8) (ticket 1) had returned before Broadcast(9)
 (ticket 2) was called, Broadcast(7) (ticket 0) was called first but won the lock second; the first
 subscriber received 8 then 7, and 9 is in its buffer. -/
